@@ -130,3 +130,84 @@ func (e *Engine) unwrapFlowResult() *FuncResult {
 	res.Obligs = ctx.obligs
 	return res
 }
+
+// cueDefaultFlowResult (CUE front end): cueConcreteToScalar converts a concrete CUE value (a default) into
+// the Go value stored in ast.Type.Default. The CUE library is opaque to the engine, so the claim is
+// structural: in the list and struct cases every element / field the library iterator yields is converted
+// and RECORDED - on every path from the recursive conversion back to the loop head the result is appended
+// to the list / stored in the map under the field's label (the only other way out of the iteration is
+// the error return). A `continue` that skips some converted values (nil ones, say) breaks it: an explicit
+// `null` or `[]` override in a struct default would silently vanish from the IR.
+func (e *Engine) cueDefaultFlowResult() *FuncResult {
+	ctx := newCtx(e, e.anyFunction())
+	ctx.fnKey = "c10-cue-defaults"
+	res := &FuncResult{Key: "c10-cue-defaults", Ctx: ctx}
+	fn := e.fnByKey["simplecue.cueConcreteToScalar"]
+	okMap, okList := false, false
+	if fn != nil {
+		f := &Frame{ctx: ctx, fn: fn, tmap: TMap{}, vals: map[ssa.Value]Val{}}
+		f.analyzeLoops()
+		recorded := func(isRecord func(ssa.Instruction) bool) bool {
+			found := false
+			all := true
+			for _, li := range f.loops {
+				var rec *ssa.BasicBlock
+				var calls []*ssa.BasicBlock
+				for b := range li.body {
+					for _, in := range b.Instrs {
+						if isRecord(in) {
+							rec = b
+						}
+						if c, ok := in.(*ssa.Call); ok {
+							if sc := c.Call.StaticCallee(); sc == fn {
+								calls = append(calls, b)
+							}
+						}
+					}
+				}
+				if rec == nil {
+					continue
+				}
+				found = true
+				if len(calls) == 0 {
+					all = false
+				}
+				// from the block of the recursive call, can the loop head be reached again without passing the record block?
+				for _, cb := range calls {
+					if cb == rec {
+						continue
+					}
+					seen := map[*ssa.BasicBlock]bool{rec: true}
+					stack := append([]*ssa.BasicBlock{}, cb.Succs...)
+					for len(stack) > 0 {
+						n := stack[len(stack)-1]
+						stack = stack[:len(stack)-1]
+						if seen[n] || !li.body[n] {
+							continue
+						}
+						if n == li.header {
+							all = false
+							break
+						}
+						seen[n] = true
+						stack = append(stack, n.Succs...)
+					}
+				}
+			}
+			return found && all
+		}
+		okMap = recorded(func(in ssa.Instruction) bool { _, ok := in.(*ssa.MapUpdate); return ok })
+		okList = recorded(func(in ssa.Instruction) bool {
+			c, ok := in.(*ssa.Call)
+			if !ok {
+				return false
+			}
+			b, isB := c.Call.Value.(*ssa.Builtin)
+			return isB && b.Name() == "append"
+		})
+	}
+	ctx.addOblig("unwrap", "simplecue.cueConcreteToScalar:struct-default:every-converted-field-is-recorded-under-its-label", BoolLit(okMap), "internal/simplecue/utils.go")
+	ctx.addOblig("unwrap", "simplecue.cueConcreteToScalar:list-default:every-converted-element-is-appended", BoolLit(okList), "internal/simplecue/utils.go")
+	res.Obligs = ctx.obligs
+	return res
+}
